@@ -16,14 +16,26 @@ Proof. exact table_sound. Qed.
    that contains the construct *)
 Definition ex_G := mkGrammar ["FunctionDef"; "If"] [("FunctionDef", "body"); ("If", "body")]
                               [("FunctionDef", ["body"]); ("If", ["test"; "body"])] [] ["If"].
-Definition ex_Ps : list wpass := [([("If", mkAction true [] Always [])], [])].
+Definition ex_Ps : list wpass := [([("If", mkAction true [] Always [] [])], [])].
 Definition ex_p := Node "FunctionDef" [("body", Node "If" [("test", Node "Name" []); ("body", Node "If" [])])].
 Example routing_sound_nonvacuous :
   table_ok ex_G ex_Ps = true /\ survivors ex_G ex_p = ["If"; "If"] /\ survivors ex_G (run_pipeline ex_G ex_Ps ex_p) = [].
 Proof. vm_compute. repeat split; reflexivity. Qed.
 (* and a table that skips a field is rejected *)
 Example discipline_rejects_skipped_field :
-  table_ok ex_G [([("If", mkAction false ["test"] Always [])], [])] = false.
+  table_ok ex_G [([("If", mkAction false ["test"] Always [] [])], [])] = false.
 Proof. vm_compute. reflexivity. Qed.
+(* and so is a table with a method that moves children into a field no traversal enters (a tuple where the
+   grammar has a list): in the model the later pass does not reach the hidden call, which survives *)
+Definition ex_G2 := mkGrammar ["FunctionDef"; "Assign"] [("FunctionDef", "body")]
+                               [("FunctionDef", ["body"]); ("Assign", ["targets"; "value"]); ("Call", ["func"; "args"])] [] ["Call"].
+Definition ex_hiding : list wpass :=
+  [([("Assign", mkAction true [] Never [] ["targets"])], []); ([("Call", mkAction true [] Always [] [])], [])].
+Definition ex_p2 := Node "FunctionDef" [("body", Node "Assign" [("targets", Node "Subscript" [("slice", Node "Call" [])]);
+                                                                  ("value", Node "Call" [])])].
+Example discipline_rejects_hidden_field :
+  table_ok ex_G2 ex_hiding = false /\ wf ex_G2 ex_p2 = true /\ kf ex_G2 ex_p2 = true /\
+  survivors ex_G2 (run_pipeline ex_G2 ex_hiding ex_p2) = ["Call"].
+Proof. vm_compute. repeat split; reflexivity. Qed.
 Print Assumptions routing_sound.
 Print Assumptions routing_sound_nonvacuous.
